@@ -44,6 +44,27 @@ static void vp_unum(char *out, size_t size, size_t *pos, unsigned long v, unsign
     }
 }
 
+/* CBMC stores each variadic argument in an object of its *unpromoted* type (a short stays 2
+ * bytes), while C promotes it to int: read an integer argument according to the size of the
+ * object it was stored in.  Natively this is plain va_arg. */
+#ifdef VERIF_NATIVE
+#define VP_SINT(ap) ((long)va_arg(ap, int))
+#define VP_UINT(ap) ((unsigned long)va_arg(ap, unsigned))
+#else
+static long vp_int_arg(void ***app, int is_unsigned)
+{
+    void *p = **app;
+    __CPROVER_size_t n = __CPROVER_OBJECT_SIZE(p);
+    (*app)++;
+    if (n == 1) return is_unsigned ? (long)*(unsigned char *)p : (long)*(signed char *)p;
+    if (n == 2) return is_unsigned ? (long)*(unsigned short *)p : (long)*(short *)p;
+    if (n == 4) return is_unsigned ? (long)*(unsigned int *)p : (long)*(int *)p;
+    return *(long *)p;
+}
+#define VP_SINT(ap) vp_int_arg((void ***)&(ap), 0)
+#define VP_UINT(ap) ((unsigned long)vp_int_arg((void ***)&(ap), 1))
+#endif
+
 int vsnprintf(char *out, size_t size, const char *fmt, va_list ap)
 {
     size_t pos = 0;
@@ -56,7 +77,7 @@ int vsnprintf(char *out, size_t size, const char *fmt, va_list ap)
         if (c == 'l') { lng = 1; c = *fmt++; }
         switch (c) {
         case '%': vp_put(out, size, &pos, '%'); break;
-        case 'c': vp_put(out, size, &pos, (char)va_arg(ap, int)); break;
+        case 'c': vp_put(out, size, &pos, (char)VP_SINT(ap)); break;
         case 's': {
             const char *s = va_arg(ap, const char *);
             if (!s) s = "(null)";
@@ -64,15 +85,15 @@ int vsnprintf(char *out, size_t size, const char *fmt, va_list ap)
             break;
         }
         case 'd': {
-            long v = lng ? va_arg(ap, long) : (long)va_arg(ap, int);
+            long v = lng ? va_arg(ap, long) : VP_SINT(ap);
             unsigned long u = (unsigned long)v;
             if (v < 0) { vp_put(out, size, &pos, '-'); u = 0ul - u; }
             vp_unum(out, size, &pos, u, 10);
             break;
         }
-        case 'u': vp_unum(out, size, &pos, lng ? va_arg(ap, unsigned long) : (unsigned long)va_arg(ap, unsigned), 10); break;
+        case 'u': vp_unum(out, size, &pos, lng ? va_arg(ap, unsigned long) : VP_UINT(ap), 10); break;
         case 'x': {
-            unsigned long v = lng ? va_arg(ap, unsigned long) : (unsigned long)va_arg(ap, unsigned);
+            unsigned long v = lng ? va_arg(ap, unsigned long) : VP_UINT(ap);
             if (alt && v != 0) { vp_put(out, size, &pos, '0'); vp_put(out, size, &pos, 'x'); }
             vp_unum(out, size, &pos, v, 16);
             break;
